@@ -461,6 +461,17 @@ func runDiscoveryCase(w *gal.Writer, backend, kid string) {
 	emitCanary(w, "key-discovery-"+backend, ops, false, c.outsideChanges(), map[string]any{"kid": kid, "backend": backend, "error": errStr(ierr)})
 }
 
+// InitKeyring on the directory-backed filesystem: the key is stored under the
+// base name of its location
+func runKeyringDirfsCase(w *gal.Writer, element string) {
+	c := newCanary()
+	defer c.close()
+	f := apkfs.DirFS(filepath.Join(c.top, "root"))
+	_, err := initKeyringOn(f, element)
+	ops := []dop{{Op: "OMkdirAll", Name: "etc/apk/keys"}, {Op: "OWriteFile", Name: filepath.Join("etc", "apk", "keys", filepath.Base(element))}}
+	emitCanary(w, "keyring-dirfs", ops, false, c.outsideChanges(), map[string]any{"element": element, "error": errStr(err)})
+}
+
 func stageCanary(w *gal.Writer, r *gal.Rand) {
 	// -- corpus: the recorded findings and their confined neighbours --------------
 	runDirfsCase(w, "dirfs-op", []dop{{Op: "OWriteFile", Name: "../escaped.txt"}}, true)                                    // C18-F1
@@ -535,6 +546,9 @@ func stageCanary(w *gal.Writer, r *gal.Rand) {
 			hp = "/" + hp
 		}
 		runCacheCase(w, "https://keys.example"+hp, gal.Pick(r, etags))
+	}
+	for _, tail := range []string{"/keys/k.rsa.pub", "/..", "/a/b/..", "/../../../../../k.pub", "/../../../../../../../../c18-key-escape", "/%2e%2e", "/k?x=/../../../../../../../y"} {
+		runKeyringDirfsCase(w, "https://keys.example"+tail)
 	}
 	for _, kid := range []string{"good-key", "../../../../c18-kid", "../../../../host/kid", "/abs-kid", "..", "a/b", "x/../../../../../decoy"} {
 		runDiscoveryCase(w, "dirfs", kid)
